@@ -2,6 +2,8 @@
 """regenerates MANIFEST.json from the table below (kept valid at all times)"""
 import json
 CLAIMED = {
+ "C06": ("inline caches: layout change implies new shape, only cacheable slots stored, prototype-depth bookkeeping, cached slot applied only to the validated holder",
+         "who-may-write + dominance + value-provenance (holder identity) rules over MIR of the property map and IC fast paths", "§5 C06"),
  "C02": ("no internal failure: the compiler cannot drop a live Register (drop bomb); every always-on arithmetic panic (÷0, %0, MIN/-1, -MIN) is guarded or has a never-zero divisor",
          "typestate on drop-elaborated MIR + reaching-definition / dominating-comparison classification of every arithmetic Assert terminator", "§5 C02"),
  "C10": ("GC transparency: Trace completeness of every workspace type (no GC edge in a field the trace body skips), WeakRef kept-alive protocol",
